@@ -13,6 +13,7 @@ func init() {
 			"PV-PAIR: fillWindow, vectorAgg*, binOp, samplesSet, ReadStepResponse key their maps by Key() of the stored/matched (grouped) label set",
 			"CH-SIB / FE-BOOL: Key and AsLokiAPI both go through forEach, whose visibility table is without-hides / non-nil-by-restricts",
 			"PV-FRESH: helpers that insert into a by/without set get nil or a clone",
+			"PV-WRITEBACK for struct-valued map elements; PV-WHOLE: the step's samples of the aggregating iterators are only reset and appended to",
 		},
 		NotDecided: []string{"64-bit hash collisions between distinct encodings", "count conservation as arithmetic"},
 		Rules: func(r *Run) {
